@@ -309,8 +309,24 @@ def rule_order(ctx, px):
     # lazily loaded built-ins: config property
     lcl = px.cls("nunavut.lang._language", "LanguageClassLoader")
     cfgp = lcl.methods["config"]
-    txt = ast.unparse(cfgp.node)
-    ok = "self._config is None" in txt and "self._load_config()" in txt
+    # path by path: where nothing is cached yet the built-ins are loaded, stored in the cache and returned; elsewhere the cache is returned
+    ok, n_load, n_hit = True, 0, 0
+    for path in pyfront.enumerate_paths(cfgp.node.body):
+        if path.outcome != "return":
+            continue
+        terms = pyfront.guard_terms([c_ for c_ in path.conds if not isinstance(c_[0], str)])
+        empty = ("self._config is None", True) in terms or ("self._config is not None", False) in terms or ("self._config", False) in terms
+        stores = [st_ for st_ in path.stmts if isinstance(st_, ast.Assign) and ast.unparse(st_.targets[0]) == "self._config"]
+        loaded = [ast.unparse(pyfront.subst_locals(cfgp.node, st_.value)) for st_ in stores]
+        rv = path.stmts[-1].value
+        rtxt = ast.unparse(pyfront.subst_locals(cfgp.node, rv)) if rv is not None else "None"
+        if empty:
+            n_load += 1
+            ok = ok and loaded == ["self._load_config()"] and rtxt in ("self._config", "self._load_config()")
+        else:
+            n_hit += 1
+            ok = ok and not stores and rtxt == "self._config"
+    ok = ok and n_load >= 1 and n_hit >= 1
     ctx.ob(R, cfgp.module.rel, f"{cfgp.short} :: built-in properties are loaded on first access, before anything is merged", ok, "", cfgp.node.lineno)
     # deep_update scalar assignment
     du = px.func(UTIL, "deep_update")
@@ -363,7 +379,8 @@ def rule_order(ctx, px):
             # the path must establish: the value is explicit, or the entry is absent, or the entry is itself a default
             fine = (V_DEF, False) in terms or any((e, True) in terms for e in E_DEF) or any((e, True) in terms for e in ABSENT_T) or any((e, False) in terms for e in ABSENT_F)
             if not fine:
-                allowed = {V_DEF} | {f"not {e}" for e in E_DEF}
+                # not (A and B and ..) is fine when the failure of every conjunct is: the value is explicit / the entry is a default / the key is absent
+                allowed = {V_DEF} | {f"not {e}" for e in E_DEF} | set(ABSENT_F)
                 for e, p_ in terms:
                     if p_:
                         continue
@@ -412,7 +429,48 @@ def rule_group_unit(ctx, px, root):
     )
     import yaml
 
-    cfg = yaml.safe_load((root / "src" / "nunavut" / "lang" / "properties.yaml").read_text())
+    # the built-in configuration as the loader reads it: every *.yaml document of the nunavut.lang package (merged in listing order), or
+    # the documents it names
+    lang_dir = root / "src" / "nunavut" / "lang"
+    shipped = sorted(p_.name for p_ in lang_dir.glob("*.yaml"))
+    lc_ = px.cls("nunavut.lang._language", "LanguageClassLoader")
+    unit_ = [lc_.methods["_load_config"]]
+    for c_ in ast.walk(unit_[0].node):
+        if isinstance(c_, ast.Call) and isinstance(c_.func, ast.Attribute) and isinstance(c_.func.value, ast.Name) and c_.func.value.id in ("cls", "self") \
+                and c_.func.attr in lc_.methods and lc_.methods[c_.func.attr] not in unit_:
+            unit_.append(lc_.methods[c_.func.attr])
+    globs = [c_ for u_ in unit_ for c_ in ast.walk(u_.node) if isinstance(c_, ast.Call) and ast.unparse(c_.func).endswith("iter_package_resources")
+             and any(isinstance(a_, ast.Constant) and a_.value == ".yaml" for a_ in c_.args)]
+    named = sorted({k_.value for u_ in unit_ for k_ in ast.walk(u_.node) if isinstance(k_, ast.Constant) and isinstance(k_.value, str) and k_.value.endswith(".yaml") and k_.value != ".yaml"})
+    # ... also through a class / module constant that the loader mentions
+    consts_ = {}
+    for st_ in list(lc_.node.body) + list(lc_.module.tree.body):
+        if isinstance(st_, ast.Assign) and len(st_.targets) == 1 and isinstance(st_.targets[0], ast.Name) and isinstance(st_.value, ast.Constant) \
+                and isinstance(st_.value.value, str) and st_.value.value.endswith(".yaml"):
+            consts_[st_.targets[0].id] = st_.value.value
+    for u_ in unit_:
+        for n_ in ast.walk(u_.node):
+            nm_ = n_.attr if isinstance(n_, ast.Attribute) else (n_.id if isinstance(n_, ast.Name) else None)
+            if nm_ in consts_:
+                named = sorted(set(named) | {consts_[nm_]})
+    read = shipped if globs else [n_ for n_ in named if (lang_dir / n_).is_file()]
+    if not read:
+        raise AnalysisError("anchor missing: the built-in configuration documents LanguageClassLoader._load_config reads")
+    unread = sorted(set(shipped) - set(read))
+    ctx.ob(R, unit_[0].module.rel, f"{unit_[0].short} :: reads every configuration document the package ships ({', '.join(shipped)})", not unread,
+           "" if not unread else f"{unread} ship with the package but are never read: what they define (language-standard presets, options) silently does not exist",
+           unit_[0].node.lineno)
+
+    def _merge(a_, b_):
+        for k_, v_ in (b_ or {}).items():
+            if isinstance(v_, dict) and isinstance(a_.get(k_), dict):
+                _merge(a_[k_], v_)
+            else:
+                a_[k_] = v_
+        return a_
+    cfg = {}
+    for n_ in read:
+        _merge(cfg, yaml.safe_load((lang_dir / n_).read_text()) or {})
     # option keys that a command-line argument sets explicitly: `<dict>["<declared option>"] = ...` anywhere in the argparse runner
     declared = set()
     for body in cfg.values():
@@ -591,6 +649,48 @@ def rule_ownership(ctx, px):
     ctx.ob(R, lcl.module.rel, "LanguageClassLoader.__init__ :: starts without configuration", ok, "", init.node.lineno)
 
 
+def rule_config_values_not_mutated(ctx, px):
+    """what the configuration hands out (lists and maps of get_config_value*, get_option[s], sections) still belongs to the configuration -
+    and, for an override, to the caller's document: a consumer that extends it in place changes the configuration for every later
+    reader and writes into the document it was loaded from"""
+    R = "R-C13-OWNERSHIP"
+    READERS = ("get_config_value_as_list", "get_config_value_as_dict", "get_config_value", "get_option", "get_options", "sections", "get_config_value_as_bool")
+    MUT = ("append", "extend", "insert", "update", "pop", "remove", "clear", "sort", "setdefault", "popitem", "reverse", "add", "discard")
+    k = 0
+    for f in px.all_funcs:
+        if f.outer is not None or not f.module.name.startswith("nunavut") or f.module.name.startswith("nunavut.lang._config"):
+            continue
+        held = {}
+        for n in ast.walk(f.node):
+            if isinstance(n, ast.Assign) and len(n.targets) == 1 and isinstance(n.value, ast.Call) and isinstance(n.value.func, ast.Attribute) \
+                    and n.value.func.attr in READERS and n.value.func.attr != "get_config_value_as_bool":
+                held[ast.unparse(n.targets[0])] = n
+        if not held:
+            continue
+        scope = [f] if not any(h_.startswith("self.") for h_ in held) or f.cls is None else list(f.cls.methods.values())
+        for name, src in held.items():
+            k += 1
+            bad = None
+            for g in (scope if name.startswith("self.") else [f]):
+                for n in ast.walk(g.node):
+                    if isinstance(n, ast.AugAssign) and ast.unparse(n.target) == name:
+                        bad = (g, n, f"`{ast.unparse(n)[:70]}` extends it in place")
+                    elif isinstance(n, ast.Call) and isinstance(n.func, ast.Attribute) and n.func.attr in MUT and ast.unparse(n.func.value) == name:
+                        bad = (g, n, f"`{ast.unparse(n)[:70]}` changes it in place")
+                    elif isinstance(n, (ast.Assign, ast.Delete)) and any(isinstance(t_, ast.Subscript) and ast.unparse(t_.value) == name for t_ in n.targets):
+                        bad = (g, n, f"`{ast.unparse(n)[:70]}` stores into it")
+            # a re-binding to a fresh object (x = x + y, x = list(x)) before the mutation would make it the consumer's own; the simple,
+            # common case is judged: any in-place change of a name that holds the configuration's object and is never re-bound
+            rebinds = [n for g in (scope if name.startswith("self.") else [f]) for n in ast.walk(g.node)
+                       if isinstance(n, ast.Assign) and n is not src and any(ast.unparse(t_) == name for t_ in n.targets)]
+            if bad is not None and rebinds and all(r_.lineno < bad[1].lineno for r_ in rebinds if bad[0] is f) and bad[0] is f:
+                bad = None
+            ctx.ob(R, f.module.rel, f"{f.short} :: `{name}` (from {src.value.func.attr}) is read, not changed in place", bad is None,
+                   "" if bad is None else f"{bad[0].short}: {bad[2]}: the list / map belongs to the language configuration (and to the override document it came from) - "
+                   "later readers, other contexts built from the same document and the caller's document see the change", (bad[1].lineno if bad else src.lineno))
+    ctx.floor(R + ":config-values", k, 5)
+
+
 def run(ctx):
     ctx.explanation = (
         "C13 is decided on the structure of the merge pipeline: the argparse table is compared with the way the CLI "
@@ -605,3 +705,4 @@ def run(ctx):
     rule_order(ctx, px)
     rule_group_unit(ctx, px, ctx.root)
     rule_ownership(ctx, px)
+    rule_config_values_not_mutated(ctx, px)
